@@ -1115,17 +1115,19 @@ func (c *Compiler) compileFunc(node *ast.Func) error {
 	c.current = code
 
 	// Make it quick to look up the index of a parameter
-	paramsIdx := map[string]int{}
 	params := node.ParameterNames()
-	for i, name := range params {
-		paramsIdx[name] = i
-	}
 
 	// Build an array of default values for parameters, supporting only
 	// the basic types of int, string, bool, float, and nil.
 	defaults := make([]any, len(params))
 	defaultsSet := map[int]bool{}
-	for name, expr := range node.Defaults() {
+	nodeDefaults := node.Defaults()
+	// Visit the defaults in parameter order so that errors are deterministic
+	for index, name := range params {
+		expr, hasDefault := nodeDefaults[name]
+		if !hasDefault {
+			continue
+		}
 		var value any
 		switch expr := expr.(type) {
 		case *ast.Int:
@@ -1142,7 +1144,6 @@ func (c *Compiler) compileFunc(node *ast.Func) error {
 			line := node.Token().StartPosition.Line + 1
 			return fmt.Errorf("compile error: unsupported default value (got %s, line %d)", expr, line)
 		}
-		index := paramsIdx[name]
 		defaults[index] = value
 		defaultsSet[index] = true
 	}
